@@ -29,7 +29,7 @@ inductive Err
 inductive Res (σ : Type)
   | ok (s : σ)
   | err (e : Err) (s : σ)
-  deriving Repr
+  deriving DecidableEq, Repr
 
 def Res.state {σ : Type} : Res σ → σ
   | .ok s => s
